@@ -1,10 +1,9 @@
-import Driver.Util
+import Driver.KV
 
-/-! Placeholder: the line-protocol driver of domain C05 is not written yet. -/
+/-! Domain C05: the same model as C06 answers every line; a `closeidle` / `restart` line is
+    flagged when the persisted-and-reloaded view of the swamp differs from the view before. -/
 namespace Driver.C05
 
-def run (_args : List String) : IO UInt32 := do
-  IO.eprintln "drv: domain C05 has no driver yet"
-  return 2
+def run (args : List String) : IO UInt32 := Driver.KV.run "C05" .c05 args
 
 end Driver.C05
